@@ -148,6 +148,10 @@ func (cb *CanonicalBlock) UnmarshalCbor(r io.Reader) error {
 		cb.Value = b
 	}
 
+	if hasCRCField := blockLen == 6; hasCRCField != cb.HasCRC() {
+		return fmt.Errorf("array of %d elements does not match CRC type %v", blockLen, cb.CRCType)
+	}
+
 	if blockLen == 6 {
 		if crcCalc, crcErr := calculateCRCBuff(crcBuff, cb.CRCType); crcErr != nil {
 			return crcErr
